@@ -108,6 +108,12 @@ def sweep_cases(ctx: core.Ctx, rnd: random.Random, gens: list, repeats: int, *, 
                 add(fname, sname, kind, by_name["B1"], fl, "rep:" + fname, must=False)
                 cases[-1]["steps"] = [dict(st_, req=dict(st_["req"], holders=["Mirror Corp " + mark])) for st_ in cases[-1]["steps"]]
                 cases[-1]["label"] = anncases.label(file=fname, entry="mirrored-prefix-holder", body=kind, mark=mark, flavour=fl)
+        # contributors that end in what a reader may take for a terminator or a frame: refused, or read back as given
+        for fname, sname, conv in (("sample.py", "python", "Team C #"), ("sample.py", "python", "Team :)"), ("sample.c", "c", "Jane Doe {jd}"),
+                                   ("sample.html", "html", "Docs Group ]]"), ("sample.bat", "bat", "Grupo MER"), ("sample.tex", "tex", "Half 50 %")):
+            add(fname, sname, "code", by_name["B1"], {}, "rep:" + fname, must=False)
+            cases[-1]["steps"] = [dict(st_, req=dict(st_["req"], con=[conv])) for st_ in cases[-1]["steps"]]
+            cases[-1]["label"] = anncases.label(file=fname, entry="contributor-ending-like-a-terminator", contributor=conv)
         # --recursive over directories in which one file already has a .license sibling: the request belongs into the sibling
         side = "SPDX-FileCopyrightText: 2000 Sidecar Holder\n\nSPDX-License-Identifier: Zlib\n"
         rfiles = [{"name": "x/a.py", "kind": "code", "style_name": "python", "eol": "\n"},
